@@ -191,8 +191,8 @@ theorem lcall_step {fuel : Nat} (hB : LBind fs fuel) (hI : LInit fs fuel) (hK : 
   simp only [callFunction]
   split
   · rfl
-  · have h1 := hB false ctl σ fd.params args args.allPositional 0 {}
-    rcases hA : bindParams fs false fuel ctl σ fd.params args args.allPositional 0 {} with ⟨σ1, r1⟩
+  · have h1 := hB false ctl σ fd.params args (decide (args.length ≠ 0) && args.allPositional) 0 {}
+    rcases hA : bindParams fs false fuel ctl σ fd.params args (decide (args.length ≠ 0) && args.allPositional) 0 {} with ⟨σ1, r1⟩
     rw [hA] at h1
     cases r1 with
     | error s => exact h1
@@ -238,8 +238,8 @@ theorem lfb_step {fuel : Nat} (hB : LBind fs fuel) (hK : LBlock fs fuel) : LFb f
   simp only [callFb]
   split
   · rfl
-  · have h1 := hB true ctl σ fb.params args args.allPositional 0 {}
-    rcases hA : bindParams fs true fuel ctl σ fb.params args args.allPositional 0 {} with ⟨σ1, r1⟩
+  · have h1 := hB true ctl σ fb.params args (decide (args.length ≠ 0) && args.allPositional) 0 {}
+    rcases hA : bindParams fs true fuel ctl σ fb.params args (decide (args.length ≠ 0) && args.allPositional) 0 {} with ⟨σ1, r1⟩
     rw [hA] at h1
     cases r1 with
     | error s => exact h1
